@@ -1716,8 +1716,15 @@ class SSHServerChannel(SSHChannel, Generic[AnyStr]):
                                       auth_data: bytes, screen: int) -> None:
         """Finish processing request to enable X11 forwarding"""
 
-        self._x11_display = await self._conn.attach_x11_listener(
+        conn = self._conn
+
+        self._x11_display = await conn.attach_x11_listener(
             self, auth_proto, auth_data, screen)
+
+        if not self._conn:
+            # The channel was closed while the listener was being set up
+            conn.detach_x11_listener(self)
+            return
 
         if self._x11_display:
             self.logger.debug1('  X11 forwarding enabled')
